@@ -65,6 +65,37 @@ theorem latest_are_the_childless_merged_after_every_history (cx : Ctx) (hwf : wf
     (deliveries_headsChildless cx (wfCheck3_sound cx.blocks hwf) hknown d cs {} h (docInv_empty cx.blocks)
       (headsChildless_empty cx.blocks)) k x
 
+/-! ### the head set of a field is stored under the key `<namespace>/<cid>` and read back by key prefix -/
+
+/-- **listing by the namespace closed with the separator is exact**: a stored head key `b/…` is listed under namespace
+    `a` exactly when `a = b` (segments contain no separator) — repaired defect ffad14f -/
+theorem head_listing_is_exact : ∀ (a b c : List Nat), 47 ∉ a → 47 ∉ b →
+    ((a ++ [47]) <+: (b ++ [47] ++ c) ↔ a = b)
+  | [], [], c, _, _ => by simp
+  | [], y :: b, c, _, hb => by
+    have hy : y ≠ 47 := fun e => hb (e ▸ List.mem_cons_self)
+    simp only [List.nil_append, List.cons_append, List.cons_prefix_cons]
+    constructor
+    · rintro ⟨e, _⟩; exact absurd e.symm hy
+    · intro e; cases e
+  | x :: a, [], c, ha, _ => by
+    have hx : x ≠ 47 := fun e => ha (e ▸ List.mem_cons_self)
+    simp only [List.cons_append, List.nil_append, List.cons_prefix_cons]
+    constructor
+    · rintro ⟨e, _⟩; exact absurd e hx
+    · intro e; cases e
+  | x :: a, y :: b, c, ha, hb => by
+    have ih := head_listing_is_exact a b c (fun h => ha (List.mem_cons_of_mem _ h)) (fun h => hb (List.mem_cons_of_mem _ h))
+    simp only [List.cons_append, List.cons_prefix_cons] at ih ⊢
+    constructor
+    · rintro ⟨e, h⟩; rw [e, ih.mp h]
+    · intro e; injection e with e1 e2; exact ⟨e1, ih.mpr e2⟩
+
+/-- ... while the bare namespace (the pinned tree) also lists the heads of every field whose identifier merely starts
+    with it: field `2` and field `20` (`[50]` and `[50, 48]`) -/
+theorem bare_prefix_lists_other_fields : ([50] : List Nat) <+: ([50, 48] ++ [47] ++ [99]) ∧ ([50] : List Nat) ≠ [50, 48] := by
+  decide
+
 /-- a fork and its merge commit, as a causal history: 1, then 2 and 3 on top of 1, then 4 on top of both -/
 def diamond : List Block :=
   [⟨1, .comp, "d", 1, [], [], .comp false⟩, ⟨2, .comp, "d", 2, [1], [], .comp false⟩,
